@@ -7,11 +7,12 @@
 mod util;
 mod hist;
 mod iters;
+mod geom;
 
 use util::*;
 
 fn main() {
-    std::panic::set_hook(Box::new(|_| {}));
+    if std::env::var("HARNESS_VERBOSE").is_err() { std::panic::set_hook(Box::new(|_| {})); }
     let args: Vec<String> = std::env::args().collect();
     match args[1].as_str() {
         "gen" => {
@@ -26,6 +27,8 @@ fn main() {
                 5 => { hist::gen_c01(&mut out, prop, tier, &mut rng); hist::gen_zst(&mut out, 5, tier, &mut rng) }
                 6 => { hist::gen_c06(&mut out, tier, &mut rng); hist::gen_zst(&mut out, 6, tier, &mut rng) }
                 7 => hist::gen_c07(&mut out, tier, &mut rng),
+                2 => geom::gen_c02(&mut out, tier, &mut rng),
+                3 => geom::gen_c03(&mut out, tier, &mut rng),
                 8 | 9 | 10 => iters::generate(&mut out, prop, tier, &mut rng),
                 11 => hist::gen_c11_iter(&mut out, tier, &mut rng),
                 12 => hist::gen_c12_drain(&mut out, tier, &mut rng),
@@ -46,6 +49,7 @@ fn main() {
                 match hd[1] {
                     1 | 2 => hist::replay(&mut out, hd[0], hd[1], &inp),
                     3 => iters::replay(&mut out, hd[0], &inp),
+                    4 | 5 => geom::replay(&mut out, hd[1], &inp),
                     f => panic!("unknown family {f}"),
                 }
             }
